@@ -84,7 +84,7 @@ fn coarse_class(a: &J, b: &J) -> &'static str {
 }
 
 /// magnitude class of the failing value (part of the finding key): values at or beyond 2^53 hit the i64/f64 representation limits
-fn vclass(v: &Value) -> &'static str {
+pub fn vclass(v: &Value) -> &'static str {
     match v {
         Value::Integer(i) => if (**i as i128).abs() >= (1i128 << 53) { "huge" } else { "-" },
         Value::Float(f) => if f.abs() >= 9007199254740992.0 { "huge" } else if **f == 0.0 { "signed-zero" } else { "-" },
